@@ -86,10 +86,13 @@ theorem bases_pinned :
        ("PosixPath", ["Path", "PurePosixPath", "PurePath"]),
        ("WindowsPath", ["Path", "PureWindowsPath", "PurePath"])] := by decide
 
-/-- a live `Glob` instance on this host holds the **Windows** normalisation regex (the model's
-    `codeReWin`), and its `seps` is `('/',)`; the text of both regexes is what `dotNormGo` ports -/
+/-- a live `Glob` instance on this host holds the **POSIX** normalisation regex (the model's
+    `codeReWin` is `false`: the D16 repair — it was the Windows one on every host) and the POSIX
+    no-directory regex, and its `seps` is `('/',)`; the text of both normalisation regexes is
+    what `dotNormGo` ports -/
 theorem norm_regex_pinned :
-    codeReWin = true ∧ Gen.globInstSeps = ["/"] ∧
+    codeReWin = false ∧ Gen.globInstSeps = ["/"] ∧
+    Gen.globInstPathlibNorm = Gen.rRE_PATHLIB_DOT_NORM ∧ Gen.globInstNoDir = Gen.rRE_NO_DIR ∧
     Gen.rRE_PATHLIB_DOT_NORM = "(?:((?<=^)|(?<=/))\\.(?:/|$))+" ∧
     Gen.rRE_WIN_PATHLIB_DOT_NORM = "(?:((?<=^)|(?<=[\\\\/]))\\.(?:[\\\\/]|$))+" := by decide
 
@@ -693,15 +696,19 @@ example : formatPaths { nounique := false, caseSensitive := true, pathlib := fal
     [⟨"a".toList, true, false⟩, ⟨"a".toList, true, true⟩, ⟨"./a".toList, true, false⟩, ⟨"b".toList, false, false⟩]
     = ["a".toList, "a/".toList, "./a".toList, "b".toList] := by decide
 
-/-- **finding (D16's sibling), witnessed on the model**: because the instance holds the *Windows*
-    regex on every host, two different POSIX file names `a\.\b` and `a\b` get the same key, so
-    `Path.glob('*')` drops the second one although `glob.glob('*')` returns both.  With the POSIX
-    regex (`reWin := false`) the keys differ. -/
-theorem KF_PLNORM_witness :
-    seenKey { nounique := false, caseSensitive := true, pathlib := true, mark := false } "a\\.\\b".toList =
+/-- **D16's sibling (KF-PLNORM), repaired**: the instance used to hold the *Windows* regex on
+    every host, so the two different POSIX file names `a\.\b` and `a\b` got the same key and
+    `Path.glob('*')` dropped the second one although `glob.glob('*')` returns both.  With the
+    regex the instance holds now (`reWin := codeReWin`, the default) the keys differ; they
+    coincide only under the Windows regex (`reWin := true`, FORCEWIN), where `\` is a separator.
+    Fails again if the defect returns (`codeReWin` is computed from the live instance). -/
+theorem D16_PLNORM_fixed_witness :
+    seenKey { nounique := false, caseSensitive := true, pathlib := true, mark := false } "a\\.\\b".toList ≠
       seenKey { nounique := false, caseSensitive := true, pathlib := true, mark := false } "a\\b".toList ∧
-    seenKey { nounique := false, caseSensitive := true, pathlib := true, mark := false, reWin := false } "a\\.\\b".toList ≠
-      seenKey { nounique := false, caseSensitive := true, pathlib := true, mark := false, reWin := false } "a\\b".toList := by
+    formatPaths { nounique := false, caseSensitive := true, pathlib := true, mark := false } '/'
+      [⟨"a\\b".toList, false, false⟩, ⟨"a\\.\\b".toList, false, false⟩] = ["a\\b".toList, "a\\.\\b".toList] ∧
+    seenKey { nounique := false, caseSensitive := true, pathlib := true, mark := false, reWin := true } "a\\.\\b".toList =
+      seenKey { nounique := false, caseSensitive := true, pathlib := true, mark := false, reWin := true } "a\\b".toList := by
   decide
 
 /-! ## D6 — the witness of the property's own example, on the parser model -/
